@@ -41,7 +41,9 @@ TStep == /\ Is("step")
          /\ Active(Rec.t) /\ Op(Rec.t) = Rec.op /\ phase[Rec.t] = Rec.phase
          /\ StepOf(Rec.t)
          /\ Matches(Rec.res, Rec.op, last'[4])
-         /\ (Rec.res = "refused" => out'[Rec.t][Len(out'[Rec.t])] = Rec.cls)
+         \* the diagnostic class is compared when the harness recognised the message
+         \* (a reworded diagnostic is not a violation)
+         /\ ((Rec.res = "refused" /\ Rec.cls # "unknown") => out'[Rec.t][Len(out'[Rec.t])] = Rec.cls)
 
 \* emits that precede the last successful flush of a thread must be on disk
 FlushedMin(t) ==
